@@ -188,8 +188,13 @@ class Runner:
     def ev_hello(self, c):
         conn = self.connect()
         self.conns[c] = conn
-        r = conn.hello()
-        if r is None or r.mtype != METHOD_RETURN:
+        try:
+            r = conn.hello()
+        except (OSError, IOError):
+            r = None
+        if r is None:
+            return "F"               # the caller distinguishes a dead daemon from a lost connection
+        if r.mtype != METHOD_RETURN:
             return "?hello-failed"
         self.unique[c] = conn.unique
         self.owned[c] = []
